@@ -36,6 +36,16 @@ let fnv (l : n list) : string =
 
 let split_on c s = if s = "" then [] else String.split_on_char c s
 
+let bytes_of_tok (tok : string) : n list =
+  match String.split_on_char ':' tok with
+  | ["rep"; len; seed] ->
+    let len = int_of_string len and seed = int_of_string seed in
+    List.init len (fun i -> byte_tab.((seed * 31 + i * 7 + (i / 251)) land 255))
+  | _ -> bytes_of_hex tok
+(* values longer than 16 bytes are printed as #len/fnv *)
+let show_val (v : n list) : string =
+  if List.length v > 16 then Printf.sprintf "#%d/%s" (List.length v) (fnv v) else hex_of_bytes v
+
 (* ---------- WAL engine ---------- *)
 let files : (string, n list) Hashtbl.t = Hashtbl.create 16
 let no_compress (l : n list) : n list = l
@@ -73,7 +83,7 @@ let wal_cmd (args : string list) : string =
   match args with
   | "write" :: id :: comp :: sess :: [] ->
     if comp <> "0" then "skip" else begin
-      match wal_sessions no_compress false [] (parse_sessions sess) with
+      match wal_sessions no_compress no_decompress false [] (parse_sessions sess) with
       | None -> "openfail"
       | Some f -> Hashtbl.replace files id f; Printf.sprintf "len=%d fnv=%s" (List.length f) (fnv f)
     end
@@ -87,7 +97,7 @@ let wal_cmd (args : string list) : string =
      | Some g -> Hashtbl.replace files newid g; Printf.sprintf "len=%d fnv=%s" (List.length g) (fnv g))
   | "append" :: id :: newid :: sess :: m ->
     let f = mutate (Hashtbl.find files id) m in
-    (match wal_sessions no_compress false f (parse_sessions sess) with
+    (match wal_sessions no_compress no_decompress false f (parse_sessions sess) with
      | None -> "openfail"
      | Some g -> Hashtbl.replace files newid g; Printf.sprintf "len=%d fnv=%s" (List.length g) (fnv g))
   | "reopen" :: id :: newid :: sess :: m ->
@@ -97,7 +107,7 @@ let wal_cmd (args : string list) : string =
     let f1 = match t with
       | Eof -> f
       | Corrupt _ -> (match wal_repair no_compress no_decompress f with None -> [] | Some g -> g) in
-    (match wal_sessions no_compress false f1 (parse_sessions sess) with
+    (match wal_sessions no_compress no_decompress false f1 (parse_sessions sess) with
      | None -> "openfail"
      | Some g -> Hashtbl.replace files newid g; Printf.sprintf "len=%d fnv=%s" (List.length g) (fnv g))
   | "class" :: id :: m ->
@@ -118,13 +128,13 @@ let show_resp = function
   | ROk -> "ok"
   | RErr e -> "err:" ^ show_err e
   | RVal None -> "val:none"
-  | RVal (Some v) -> "val:" ^ hex_of_bytes v
+  | RVal (Some v) -> "val:" ^ show_val v
   | RCur None -> "cur:invalid"
-  | RCur (Some (k, v)) -> Printf.sprintf "cur:%s=%s" (hex_of_bytes k) (hex_of_bytes v)
-  | RList l -> "list:" ^ String.concat "," (List.map (fun (k, v) -> hex_of_bytes k ^ "=" ^ hex_of_bytes v) l)
+  | RCur (Some (k, v)) -> Printf.sprintf "cur:%s=%s" (hex_of_bytes k) (show_val v)
+  | RList l -> "list:" ^ String.concat "," (List.map (fun (k, v) -> hex_of_bytes k ^ "=" ^ show_val v) l)
   | RHist l -> "hist:" ^ String.concat "," (List.map (fun (k, v) ->
       let tomb = (match v.v_kind with KDel | KSoftDel -> true | _ -> false) in
-      Printf.sprintf "%s@%d%s=%s" (hex_of_bytes k) (int_of_n v.v_ts) (if tomb then "!" else "") (if tomb then "-" else hex_of_bytes v.v_val)) l)
+      Printf.sprintf "%s@%d%s=%s" (hex_of_bytes k) (int_of_n v.v_ts) (if tomb then "!" else "") (if tomb then "-" else show_val v.v_val)) l)
 let ni s = nat_of_int (int_of_string s)
 let e2_cmd (args : string list) : string =
   let run c = let (s, r) = step !e2_state c in e2_state := s; show_resp r in
@@ -150,11 +160,11 @@ let e2_cmd (args : string list) : string =
   | ["close"] -> run Reopen
   | ["reopen"] -> run Reopen
   | ["begin"; id; m] -> run (Begin (ni id, (match m with "ro" -> RO | "wo" -> WO | _ -> RW)))
-  | ["set"; id; k; v] -> run (Write (ni id, KSet, bytes_of_hex k, Some (bytes_of_hex v), N0))
-  | ["setat"; id; k; v; ts] -> run (Write (ni id, KSet, bytes_of_hex k, Some (bytes_of_hex v), n_of_int (int_of_string ts)))
+  | ["set"; id; k; v] -> run (Write (ni id, KSet, bytes_of_hex k, Some (bytes_of_tok v), N0))
+  | ["setat"; id; k; v; ts] -> run (Write (ni id, KSet, bytes_of_hex k, Some (bytes_of_tok v), n_of_int (int_of_string ts)))
   | ["del"; id; k] -> run (Write (ni id, KDel, bytes_of_hex k, None, N0))
   | ["sdel"; id; k] -> run (Write (ni id, KSoftDel, bytes_of_hex k, None, N0))
-  | ["repl"; id; k; v] -> run (Write (ni id, KReplace, bytes_of_hex k, Some (bytes_of_hex v), N0))
+  | ["repl"; id; k; v] -> run (Write (ni id, KReplace, bytes_of_hex k, Some (bytes_of_tok v), N0))
   | ["get"; id; k] -> run (Get (ni id, bytes_of_hex k))
   | ["sp"; id] -> run (Savepoint (ni id))
   | ["rbsp"; id] -> run (RollbackTo (ni id))
